@@ -314,3 +314,20 @@ Proof.
       pose proof (heap_root_least _ Hok i top Hi) as Hr. rewrite Ei in Hr.
       rewrite Er in Hr. cbn [app nth] in Hr. exact Hr.
 Qed.
+
+(* ------------------------------------------------------------------ the priority-queue specification *)
+
+Lemma heap_meets_pq_spec_lemma : pq_spec_inv heap_ok heap_push heap_pop.
+Proof.
+  split; [exact heap_ok_nil|]. split; [intros h x H; split; [apply heap_push_ok; exact H | apply heap_push_perm]|].
+  split; [exact heap_pop_none|]. intros h x h' H E. apply heap_pop_some; assumption.
+Qed.
+
+Lemma merge_loop_paths_binary_heap_lemma : forall cmp, preorder cmp ->
+  forall ts, Forall (fun t => wf_tree t = true) ts ->
+  forall p, p <> [] -> spec_at cmp ts (merge_loop cmp ts) p.
+Proof. intros cmp Hp. unfold merge_loop. apply (merge_loop_paths_inv cmp heap_ok _ _ heap_meets_pq_spec_lemma Hp). Qed.
+
+Lemma merge_loop_sorted_binary_heap_lemma : forall cmp ts,
+  Forall (fun t => wf_tree t = true) ts -> sorted (merge_loop cmp ts).
+Proof. intros cmp. unfold merge_loop. apply (merge_loop_sorted_inv cmp heap_ok _ _ heap_meets_pq_spec_lemma). Qed.
